@@ -58,6 +58,7 @@ CONSTANTS
     Validity(_),          \* service -> presentation_max_validity (seconds)
     Params,               \* registration parameter values an API caller may pass
     TickLen, MaxTime,     \* the clock advances by TickLen up to MaxTime
+    MaxRounds,            \* bound on the refresh rounds per clock slot
     MaxApi, MaxEnv,       \* bounds on API calls and on environment events
     Refusable, WalletVar, Killable, Removable,   \* what the environment may touch
     InitWallet,           \* DIDs that hold a matching credential initially
@@ -82,7 +83,7 @@ NoRec == [on |-> FALSE, next |-> 0, par |-> NoPar]
 CS == Services \X Subjects
 SD == Services \X DIDs
 Idle == [phase |-> "idle", todo |-> {}]
-Cap == 9                  \* "exempt" value of the consecutive-failure counter
+Cap == 3                  \* "exempt" value of the consecutive-failure counter (> every Slack)
 
 VARIABLES
     now,
@@ -97,6 +98,7 @@ VARIABLES
     loc,                  \* <<svc,did>> -> the client's local copy of the entry
     loop,                 \* the refresh round in flight: candidates read, not yet processed
     api, env,             \* budgets
+    rounds,               \* refresh rounds started in this clock slot
     ticked,               \* a refresh round has completed in this clock slot
     \* observation / history variables
     out,                  \* presentations sent to the server by the LAST step
@@ -108,9 +110,9 @@ VARIABLES
     orphan,               \* Deactivate answered "ok" while a registration of the subject stayed listed
     hist
 
-vars == <<now, regUp, getUp, refuse, wallet, dead, gone, rec, err, srv, loc, loop, api, env, ticked,
+vars == <<now, regUp, getUp, refuse, wallet, dead, gone, rec, err, srv, loc, loop, api, env, rounds, ticked,
           out, res, deact, lastRes, lastPar, fails, orphan, hist>>
-view == <<now, regUp, getUp, refuse, wallet, dead, gone, rec, err, srv, loc, loop, api, env, ticked,
+view == <<now, regUp, getUp, refuse, wallet, dead, gone, rec, err, srv, loc, loop, api, env, rounds, ticked,
           out, res, deact, lastRes, lastPar, fails, orphan>>
 
 Log(e) == hist' = IF Hist THEN Append(hist, e) ELSE hist
@@ -134,7 +136,7 @@ Init ==
     /\ dead = {} /\ gone = {}
     /\ rec = [c \in CS |-> NoRec] /\ err = [c \in CS |-> FALSE]
     /\ srv = [k \in SD |-> None] /\ loc = [k \in SD |-> None]
-    /\ loop = Idle /\ api = 0 /\ env = 0 /\ ticked = FALSE
+    /\ loop = Idle /\ api = 0 /\ env = 0 /\ rounds = 0 /\ ticked = FALSE
     /\ out = {} /\ res = "-" /\ deact = {}
     /\ lastRes = [c \in CS |-> "none"] /\ lastPar = [c \in CS |-> NoPar]
     /\ fails = [k \in SD |-> Cap] /\ orphan = FALSE
@@ -212,7 +214,7 @@ Activate(svc, s, p) ==
           /\ lastPar' = IF success THEN [lastPar EXCEPT ![c] = p] ELSE lastPar
           /\ res' = o
           /\ Log([a |-> "Activate", svc |-> svc, s |-> s, p |-> p, res |-> o])
-    /\ UNCHANGED <<now, regUp, getUp, refuse, wallet, dead, gone, loop, env, ticked, orphan>>
+    /\ UNCHANGED <<now, regUp, getUp, refuse, wallet, dead, gone, loop, env, rounds, ticked, orphan>>
 
 \* what deactivate() retracts: unexpired registrations in the local copy, signed by a DID with a supported method
 RetractTargets(svc, s) == {d \in DidsOf(s) : MethodOK(svc, d)}
@@ -247,13 +249,13 @@ Deactivate(svc, s) ==
           /\ orphan' = (orphan \/ (r = "ok" /\ \E d \in DidsOf(s) : LiveReg(srv'[<<svc, d>>])))
           /\ res' = r
           /\ Log([a |-> "Deactivate", svc |-> svc, s |-> s, res |-> r])
-    /\ UNCHANGED <<now, regUp, getUp, refuse, wallet, dead, gone, loop, env, ticked, lastPar>>
+    /\ UNCHANGED <<now, regUp, getUp, refuse, wallet, dead, gone, loop, env, rounds, ticked, lastPar>>
 
 (***************************************************************************)
 (* The refresh loop: Module.update() -> do()                               *)
 (***************************************************************************)
 RefreshStart ==
-    /\ loop.phase = "idle"
+    /\ loop.phase = "idle" /\ rounds < MaxRounds /\ rounds' = rounds + 1
     /\ loop' = [phase |-> "running", todo |-> {[c |-> c, par |-> rec[c].par] : c \in {x \in CS : Due(rec[x])}}]
     /\ out' = {} /\ res' = "-"
     /\ Log([a |-> "RefreshStart"])
@@ -287,7 +289,7 @@ RefreshOne(t) ==
                           [] OTHER -> lastRes
           /\ res' = o
           /\ Log([a |-> "RefreshOne", svc |-> svc, s |-> s, res |-> o])
-    /\ UNCHANGED <<now, regUp, getUp, refuse, wallet, dead, gone, loc, api, env, ticked, deact, lastPar, orphan>>
+    /\ UNCHANGED <<now, regUp, getUp, refuse, wallet, dead, gone, loc, api, env, rounds, ticked, deact, lastPar, orphan>>
 
 RefreshSync ==
     /\ loop.phase = "running" /\ loop.todo = {}
@@ -296,7 +298,7 @@ RefreshSync ==
     /\ ticked' = TRUE
     /\ out' = {} /\ res' = "-"
     /\ Log([a |-> "RefreshSync"])
-    /\ UNCHANGED <<now, regUp, getUp, refuse, wallet, dead, gone, rec, err, srv, api, env,
+    /\ UNCHANGED <<now, regUp, getUp, refuse, wallet, dead, gone, rec, err, srv, api, env, rounds,
                    deact, lastRes, lastPar, fails, orphan>>
 
 \* all state is in SQL: a new Module on the same database only loses the round in flight
@@ -305,7 +307,7 @@ Restart ==
     /\ loop.phase = "idle"
     /\ out' = {} /\ res' = "-"
     /\ Log([a |-> "Restart"])
-    /\ UNCHANGED <<now, regUp, getUp, refuse, wallet, dead, gone, rec, err, srv, loc, loop, api, ticked,
+    /\ UNCHANGED <<now, regUp, getUp, refuse, wallet, dead, gone, rec, err, srv, loc, loop, api, rounds, ticked,
                    deact, lastRes, lastPar, fails, orphan>>
 
 (***************************************************************************)
@@ -317,7 +319,7 @@ EnvStep == env < MaxEnv /\ env' = env + 1
 Advance ==
     /\ now + TickLen <= MaxTime
     /\ TimelyTicks => (ticked /\ loop.phase = "idle")
-    /\ now' = now + TickLen /\ ticked' = FALSE
+    /\ now' = now + TickLen /\ ticked' = FALSE /\ rounds' = 0
     /\ Quiet /\ Log([a |-> "Advance"])
     /\ UNCHANGED <<regUp, getUp, refuse, wallet, dead, gone, rec, err, srv, loc, loop, api, env,
                    deact, lastRes, lastPar, fails, orphan>>
@@ -325,41 +327,41 @@ Advance ==
 ToggleReg ==
     /\ EnvStep /\ regUp' = ~regUp
     /\ Quiet /\ Log([a |-> "ToggleReg"])
-    /\ UNCHANGED <<now, getUp, refuse, wallet, dead, gone, rec, err, srv, loc, loop, api, ticked,
+    /\ UNCHANGED <<now, getUp, refuse, wallet, dead, gone, rec, err, srv, loc, loop, api, rounds, ticked,
                    deact, lastRes, lastPar, fails, orphan>>
 
 ToggleGet ==
     /\ EnvStep /\ getUp' = ~getUp
     /\ Quiet /\ Log([a |-> "ToggleGet"])
-    /\ UNCHANGED <<now, regUp, refuse, wallet, dead, gone, rec, err, srv, loc, loop, api, ticked,
+    /\ UNCHANGED <<now, regUp, refuse, wallet, dead, gone, rec, err, srv, loc, loop, api, rounds, ticked,
                    deact, lastRes, lastPar, fails, orphan>>
 
 Refuse(d) ==
     /\ EnvStep /\ d \in Refusable
     /\ refuse' = IF d \in refuse THEN refuse \ {d} ELSE refuse \cup {d}
     /\ Quiet /\ Log([a |-> "Refuse", d |-> d])
-    /\ UNCHANGED <<now, regUp, getUp, wallet, dead, gone, rec, err, srv, loc, loop, api, ticked,
+    /\ UNCHANGED <<now, regUp, getUp, wallet, dead, gone, rec, err, srv, loc, loop, api, rounds, ticked,
                    deact, lastRes, lastPar, fails, orphan>>
 
 WalletFlip(d) ==
     /\ EnvStep /\ d \in WalletVar
     /\ wallet' = [wallet EXCEPT ![d] = ~@]
     /\ Quiet /\ Log([a |-> "WalletFlip", d |-> d])
-    /\ UNCHANGED <<now, regUp, getUp, refuse, dead, gone, rec, err, srv, loc, loop, api, ticked,
+    /\ UNCHANGED <<now, regUp, getUp, refuse, dead, gone, rec, err, srv, loc, loop, api, rounds, ticked,
                    deact, lastRes, lastPar, fails, orphan>>
 
 KillDID(d) ==
     /\ EnvStep /\ d \in Killable \ dead
     /\ dead' = dead \cup {d}
     /\ Quiet /\ Log([a |-> "KillDID", d |-> d])
-    /\ UNCHANGED <<now, regUp, getUp, refuse, wallet, gone, rec, err, srv, loc, loop, api, ticked,
+    /\ UNCHANGED <<now, regUp, getUp, refuse, wallet, gone, rec, err, srv, loc, loop, api, rounds, ticked,
                    deact, lastRes, lastPar, fails, orphan>>
 
 RemoveSubject(s) ==
     /\ EnvStep /\ s \in Removable \ gone
     /\ gone' = gone \cup {s}
     /\ Quiet /\ Log([a |-> "RemoveSubject", s |-> s])
-    /\ UNCHANGED <<now, regUp, getUp, refuse, wallet, dead, rec, err, srv, loc, loop, api, ticked,
+    /\ UNCHANGED <<now, regUp, getUp, refuse, wallet, dead, rec, err, srv, loc, loop, api, rounds, ticked,
                    deact, lastRes, lastPar, fails, orphan>>
 
 Next ==
